@@ -170,9 +170,13 @@ def make_record(spec):
 
 
 def real_path(path, casedir):
+    """STDOUT / STDERR stay symbolic; everything else (whatever its
+    spelling) becomes an absolute path inside the case's scratch directory."""
+    if path in reflog.STD:
+        return path
     if path.startswith("FILE:"):
-        return os.path.join(casedir, path[5:])
-    return path
+        path = path[5:]
+    return os.path.join(casedir, os.path.basename(path) or "log")
 
 
 def render_text(case, casedir):
@@ -1707,7 +1711,29 @@ def run_case(env, case, res):
         raise ValueError("unknown case kind %r" % kind)
 
 
+class InScratchDir:
+    """Run with the scratch directory as cwd: whatever a (possibly mutated)
+    tree does with a relative path - e.g. treating STDERR as a file name -
+    lands under ctx.tmp, never under /verif or /repo."""
+
+    def __init__(self, ctx):
+        self.ctx = ctx
+
+    def __enter__(self):
+        self.old = os.getcwd()
+        os.chdir(self.ctx.tmp)
+
+    def __exit__(self, *exc):
+        os.chdir(self.old)
+        return False
+
+
 def run_shard(ctx):
+    with InScratchDir(ctx):
+        _run_shard(ctx)
+
+
+def _run_shard(ctx):
     env = Env(ctx)
     res = ctx.res
     old_raise = logging.raiseExceptions
@@ -1787,8 +1813,9 @@ def finalize(m, tier):
 
 
 def replay(ctx, case):
-    env = Env(ctx)
-    try:
-        run_case(env, case, ctx.res)
-    finally:
-        env.close()
+    with InScratchDir(ctx):
+        env = Env(ctx)
+        try:
+            run_case(env, case, ctx.res)
+        finally:
+            env.close()
